@@ -139,11 +139,13 @@ func newParser(data string, pos int, opt uint64) *Parser {
 
 	/* validate json if needed */
 	if (opt&(1<<_F_validate_string)) != 0 && !utf8.ValidateString(data) {
+		// the corrected text stays intact for raw captures: strings are unescaped in place in p.padded
 		dbuf := utf8.CorrectWith(nil, rt.Str2Mem(data[pos:]), "\ufffd")
-		dbuf = append(dbuf, padding...)
-		p.Json = rt.Mem2Str(dbuf[:len(dbuf)-len(padding)])
+		p.Json = rt.Mem2Str(dbuf)
 		p.Utf8Inv = true
-		p.start = uintptr((*rt.GoString)(unsafe.Pointer(&p.Json)).Ptr)
+		p.padded = append(p.padded, dbuf...)
+		p.padded = append(p.padded, padding...)
+		p.start = uintptr((*rt.GoSlice)(unsafe.Pointer(&p.padded)).Ptr)
 	} else {
 		p.Json = data
 		// TODO: prevent too large JSON
@@ -164,11 +166,7 @@ func (p *Parser) Pos() int {
 }
 
 func (p *Parser) JsonBytes() []byte {
-	if p.Utf8Inv {
-		return (rt.Str2Mem(p.Json))
-	} else {
-		return p.padded
-	}
+	return p.padded
 }
 
 var nodeType = rt.UnpackType(reflect.TypeOf(node{}))
